@@ -107,6 +107,10 @@ def pairProps (g : Globals) (old new : List Stmt) (obs : List SExp) : Verdict :=
       else do
         -- default setting: the table ends up in the models' column order (the ordered equivalence of C01)
         migrates false dbOld dbNew (resolveDropIndex dbOld u) rc : Check)
+    -- the same for the down migration: it puts the table back in the *old* models' column order (seeded change C13-g)
+    let r13d := fun (rc : Bool) => (do
+      let d ← down
+      if g.ignoreOrder then pure () else migrates false dbNew dbOld (resolveDropIndex dbNew d) rc : Check)
     -- a failure that disappears when referential checks are switched off is an ordering-only failure (region F23)
     let ordering := fun (r : Bool → Check) (region : Option String) =>
       match region with
@@ -133,6 +137,7 @@ def pairProps (g : Globals) (old new : List Stmt) (obs : List SExp) : Verdict :=
       | none => pure ()
     let region09 := (Scope.c09 g dbOld old).orElse fun _ => Scope.c09 g dbNew new
     (judge "C13" (ordering r13 (withReader (Scope.c13 g dbOld dbNew old new))) (r13 true)).and <|
+    (judge "C13" (ordering r13d (withReader ((Scope.c13 g dbOld dbNew old new).orElse fun _ => Scope.c02 g dbOld dbNew old new))) (r13d true)).and <|
     (judge "C10" none r10).and <|
     (judge "C09" region09 crash)
   | _, _ => { items := ["illformed-input"] }
